@@ -39,6 +39,18 @@ checks/C07.py (all operand pairs of widths 1..9 on every quick run, 1..11 on
 every thorough run, structured pairs at widths up to 64; evaluated on the
 generator `goldEstimate`, which is tied gate for gate to the Go code).
 
+HISTORIES.  The compiler calls many builders on ONE `circuits.Compiler`.  The
+`_spec` lemmas behind the theorems hold from any well-formed builder state; the
+section "Histories" states what that means for sequences of calls:
+`C07_history_compose` (two calls, frame property), `C07_history` (fold over a
+history of any length, operands = inputs or earlier results),
+`C07_history_harness` (the circuit harness/cmd/c07/hist.go builds), instances
+`C07_history_udiv_udiv`, `C07_history_add_then_udiv`,
+`C07_history_divider_pair` / `C07_history_goldschmidt_pair` (two Goldschmidt
+dividers on one Compiler, conditional on the estimate hypothesis at BOTH
+states).  The tie T4 compares the Lean generators run in sequence from one state
+with the real builders run in the same sequence on one Compiler.
+
 NOT proved here (validated by the oracle and, for the gate lists, by T4 only):
 see the list at the end of this file.
 -/
@@ -51,6 +63,7 @@ import MpcVerif.Proofs.BuildersKara
 import MpcVerif.Proofs.BuildersWallace
 import MpcVerif.Proofs.BuildersHammingG
 import MpcVerif.Proofs.BuildersGold
+import MpcVerif.Proofs.BuildersHist
 
 namespace Mpc
 open Mpc.Bld
@@ -928,13 +941,240 @@ theorem C07_goldschmidt_correction_old_wrong :
     (3 ≤ 7 / 3 + 1 ∧ 7 / 3 ≤ 3 + 1) ∧ 7 / 3 = 2 ∧ 7 % 3 = 1 := by
   decide +kernel
 
+
+/-! ## Histories: many builder calls on ONE Compiler
+
+The compiler creates one `circuits.Compiler` per program and calls many builders
+on it.  The theorems above are stated on `evalBuilder` (one call on a fresh
+state), but their `_spec` lemmas hold from ANY well-formed builder state; the
+theorems of this section state the consequence for histories of calls.  The
+Lean generators run in sequence from one state are compared gate for gate with
+the real builders run in the same sequence on one `circuits.Compiler` (T4, op
+`hgr` of harness/cmd/c07/hist.go). -/
+
+/-- Sequential composition (frame property): two builders run one after the
+other on ONE state, the second possibly using the result of the first.  If the
+first establishes `Q1` from the state `s`, `Q1` is stable under state
+extension (every postcondition of the form "these wires exist and carry these
+values" is: `Bnd.mono`, `busVal_ext`), and the second establishes `Q2` from
+every extension of `s` in which `Q1` holds, then after both calls BOTH
+postconditions hold: the second call does not disturb the result of the
+first, and the first does not disturb the working of the second. -/
+theorem C07_history_compose {α β : Type} {inp : List Bool} {s : St} {m1 : BM α} {m2 : α → BM β}
+    {Q1 : α → St → Prop} {Q2 : α → β → St → Prop}
+    (h1 : Spec inp s m1 Q1)
+    (hstab : ∀ a s' s'', Ext s' s'' inp → Q1 a s' → Q1 a s'')
+    (h2 : ∀ a s', Ext s s' inp → Q1 a s' → Spec inp s' (m2 a) (Q2 a)) :
+    Spec inp s (m1 >>= fun r1 => m2 r1 >>= fun r2 => (Pure.pure (r1, r2) : BM (α × β)))
+      (fun (r : α × β) s'' => Q1 r.1 s'' ∧ Q2 r.1 r.2 s'') :=
+  Spec.seq h1 hstab h2
+
+/-- The fold over a HISTORY of calls, for every length: if every call of the
+list meets its specification from every well-formed state (`SCall.Sound`: the
+form of all `_spec` lemmas) and the preconditions of the later calls follow
+from the values at the start and the postconditions of the earlier calls
+(`PreOk`), then running the calls in order on ONE state extends that state
+(no earlier wire changes its value) and EVERY call's postcondition holds in the
+final state (`Trace`), whatever the earlier calls were and whether its
+operands are inputs or results of earlier calls. -/
+theorem C07_history {inp : List Bool} (cs : List SCall) (hs : ∀ c ∈ cs, c.Sound inp)
+    (s : St) (acc : List (List Nat)) (hwf : WF s inp) (hb : BndAll s acc) (hpre : PreOk cs (busVals s inp acc)) :
+    Spec inp s (runHist (cs.map (·.call)) acc) (fun out s' => BndAll s' out ∧
+      Trace cs (busVals s inp acc) (busVals s' inp out)) :=
+  runHist_spec cs hs s acc hwf hb hpre
+
+/-- The same on the circuit the harness builds for a history (`evalHistory`:
+input buses `ins`, optional constant-wire prologue, the calls in order on one
+state, `ret` of every result, evaluation of the emitted gate list): the outputs
+are one value per call, each satisfying its call's postcondition. -/
+theorem C07_history_harness {ins : List (List Bool)} (cs : List SCall)
+    (hs : ∀ c ∈ cs, c.Sound ins.flatten) (hpre : PreOk cs ins) (pro : Bool) (hpos : 0 < ins.flatten.length) :
+    Trace cs ins (ins ++ evalHistory pro ins (cs.map (·.call))) :=
+  evalHistory_spec cs hs hpre pro hpos
+
+/-- DIVIDER AFTER DIVIDER on one Compiler (long divider, both targets of
+`NewUDividerLong`; the Yao target of `NewUDivider`), independent operands
+`a / b` and `c / d`, all operand and result widths, all values with non-zero
+divisors: both quotients are exact. -/
+theorem C07_history_udiv_udiv (gmw pro : Bool) (a b c d : List Bool) (nq1 nq2 : Nat)
+    (hw1 : 0 < max a.length b.length) (hw2 : 0 < max c.length d.length) (hb : toNat b ≠ 0) (hd : toNat d ≠ 0) :
+    ∃ q1 q2, evalHistory pro [a, b, c, d]
+        [(udivLongCall gmw nq1 (0, 0, a.length) (1, 0, b.length)).call,
+         (udivLongCall gmw nq2 (2, 0, c.length) (3, 0, d.length)).call] = [q1, q2] ∧
+      q1.length = nq1 ∧ toNat q1 = (toNat a / toNat b) % 2 ^ nq1 ∧
+      q2.length = nq2 ∧ toNat q2 = (toNat c / toNat d) % 2 ^ nq2 := by
+  have hpos : 0 < [a, b, c, d].flatten.length := by simp; omega
+  have h := C07_history_harness (ins := [a, b, c, d])
+    [udivLongCall gmw nq1 (0, 0, a.length) (1, 0, b.length), udivLongCall gmw nq2 (2, 0, c.length) (3, 0, d.length)]
+    (by intro c' hc'; simp at hc'; rcases hc' with rfl | rfl <;> exact udivLongCall_sound _ _ _ _ _)
+    (by
+      simp only [PreOk, udivLongCall, SCall.of2, pickV]
+      refine ⟨⟨by simpa using hw1, by simpa using hb⟩, fun z _ => ⟨⟨by simpa using hw2, by simpa using hd⟩, fun _ _ => trivial⟩⟩)
+    pro hpos
+  obtain ⟨q1, hq1, q2, hq2, heq⟩ := h
+  simp [udivLongCall, SCall.of2, pickV] at hq1 hq2
+  refine ⟨q1, q2, ?_, hq1.1, hq1.2, hq2.1, hq2.2⟩
+  have : [a, b, c, d] ++ evalHistory pro [a, b, c, d]
+      [(udivLongCall gmw nq1 (0, 0, a.length) (1, 0, b.length)).call,
+       (udivLongCall gmw nq2 (2, 0, c.length) (3, 0, d.length)).call] = [a, b, c, d] ++ [q1, q2] := by
+    simpa [Trace] using heq
+  exact List.append_cancel_left this
+
+-- non-vacuity: 13 / 3 = 4 and then 14 / 5 = 2 on one state (4-bit operands, Yao long divider)
+example : (evalHistory true [ofNat 4 13, ofNat 4 3, ofNat 4 14, ofNat 4 5]
+    [(udivLongCall false 4 (0, 0, 4) (1, 0, 4)).call, (udivLongCall false 4 (2, 0, 4) (3, 0, 4)).call]).map toNat
+    = [4, 2] := by decide +kernel
+
+/-- A later call FED BY an earlier result, with a precondition that follows from
+the earlier postcondition: `s = a + b` (ripple adder, `nz` bits), then `c / s`
+(long divider): exact whenever `(a + b) mod 2^nz ≠ 0`. -/
+theorem C07_history_add_then_udiv (gmw pro : Bool) (a b c : List Bool) (nz nq : Nat)
+    (hw : 0 < max a.length b.length) (hnz : 0 < nz) (hs : (toNat a + toNat b) % 2 ^ nz ≠ 0) :
+    ∃ sm q, evalHistory pro [a, b, c]
+        [(rippleAdderCall nz (0, 0, a.length) (1, 0, b.length)).call,
+         (udivLongCall gmw nq (2, 0, c.length) (3, 0, nz)).call] = [sm, q] ∧
+      sm.length = nz ∧ toNat sm = (toNat a + toNat b) % 2 ^ nz ∧
+      q.length = nq ∧ toNat q = (toNat c / ((toNat a + toNat b) % 2 ^ nz)) % 2 ^ nq := by
+  have hpos : 0 < [a, b, c].flatten.length := by simp; omega
+  have h := C07_history_harness (ins := [a, b, c])
+    [rippleAdderCall nz (0, 0, a.length) (1, 0, b.length), udivLongCall gmw nq (2, 0, c.length) (3, 0, nz)]
+    (by intro c' hc'; simp at hc'; rcases hc' with rfl | rfl
+        · exact rippleAdderCall_sound _ _ _ _
+        · exact udivLongCall_sound _ _ _ _ _)
+    (by
+      simp only [PreOk, rippleAdderCall, udivLongCall, SCall.of2, pickV]
+      refine ⟨⟨by simpa using hw, hnz⟩, ?_⟩
+      intro z ⟨hzl, hzv⟩
+      have hz : List.take nz (List.drop 0 (([a, b, c] ++ [z]).getD 3 [])) = z := by
+        simp [← hzl]
+      have ha' : List.take a.length (List.drop 0 ([a, b, c].getD 0 [])) = a := by simp
+      have hb' : List.take b.length (List.drop 0 ([a, b, c].getD 1 [])) = b := by simp
+      rw [ha', hb'] at hzv
+      refine ⟨⟨?_, ?_⟩, fun _ _ => trivial⟩
+      · rw [hz]; simp [hzl]; omega
+      · rw [hz, hzv]; exact hs) pro hpos
+  obtain ⟨sm, hsm, q, hq, heq⟩ := h
+  simp [rippleAdderCall, udivLongCall, SCall.of2, pickV] at hsm hq
+  have hsl : sm.length = nz := hsm.1
+  have hq' := hq
+  rw [← hsl, List.take_length] at hq'
+  refine ⟨sm, q, ?_, hsm.1, hsm.2, hq'.1, by rw [hq'.2, hsm.2]⟩
+  have : [a, b, c] ++ evalHistory pro [a, b, c]
+      [(rippleAdderCall nz (0, 0, a.length) (1, 0, b.length)).call,
+       (udivLongCall gmw nq (2, 0, c.length) (3, 0, nz)).call] = [a, b, c] ++ [sm, q] := by
+    simpa [Trace] using heq
+  exact List.append_cancel_left this
+
+-- non-vacuity: 2 + 3 = 5, then 14 / 5 = 2
+example : (evalHistory true [ofNat 3 2, ofNat 3 3, ofNat 4 14]
+    [(rippleAdderCall 3 (0, 0, 3) (1, 0, 3)).call, (udivLongCall false 4 (2, 0, 4) (3, 0, 3)).call]).map toNat
+    = [5, 2] := by decide +kernel
+
+/-- GOLDSCHMIDT DIVIDER AFTER GOLDSCHMIDT DIVIDER on one Compiler (the GMW
+target of `NewUDivider`), stated for an arbitrary quotient estimator `est`
+(`dividerWith est` = estimator, then the correction step `goldCorrection`;
+`goldschmidt = dividerWith goldEstimate` on equal operand widths,
+`C07_history_goldschmidt_pair`).  From any well-formed state, for all equal
+operand widths and all result widths, non-zero divisors: if the estimator is
+within ±1 of the quotient when run from the state `s` on `a, b` AND when run
+on `c, d` from every state that extends `s` (in particular the one the first
+divider leaves behind), then BOTH dividers are exact.  The estimate bound is
+the VALIDATED hypothesis `goldschmidt-estimate-within-one`; checks/C07.py
+evaluates it on fresh states (`estexh`, `estrnd`) and on the states a first
+divider leaves behind (`esthist`). -/
+theorem C07_history_divider_pair (est : List Nat → List Nat → BM (List Nat)) {s : St} {inp : List Bool}
+    {a b c d : List Nat} (nq1 nr1 nq2 nr2 : Nat)
+    (ha : Bnd s a) (hb : Bnd s b) (hc : Bnd s c) (hd : Bnd s d)
+    (hlb : b.length = a.length) (hld : d.length = c.length) (hna : 0 < a.length) (hnc : 0 < c.length)
+    (hB : 0 < toNat (busVal s inp b)) (hD : 0 < toNat (busVal s inp d))
+    (hest1 : EstWithinOne est inp s a b)
+    (hest2 : ∀ s', Ext s s' inp → EstWithinOne est inp s' c d) :
+    Spec inp s (dividerWith est a b nq1 nr1 >>= fun r1 => dividerWith est c d nq2 nr2 >>= fun r2 =>
+        (Pure.pure (r1, r2) : BM ((List Nat × List Nat) × (List Nat × List Nat))))
+      (fun r s'' =>
+        (r.1.1.length = nq1 ∧ r.1.2.length = nr1 ∧
+          toNat (busVal s'' inp r.1.1) = (toNat (busVal s inp a) / toNat (busVal s inp b)) % 2 ^ nq1 ∧
+          toNat (busVal s'' inp r.1.2) = (toNat (busVal s inp a) % toNat (busVal s inp b)) % 2 ^ nr1) ∧
+        (r.2.1.length = nq2 ∧ r.2.2.length = nr2 ∧
+          toNat (busVal s'' inp r.2.1) = (toNat (busVal s inp c) / toNat (busVal s inp d)) % 2 ^ nq2 ∧
+          toNat (busVal s'' inp r.2.2) = (toNat (busVal s inp c) % toNat (busVal s inp d)) % 2 ^ nr2)) := by
+  have h := C07_history_compose
+    (Q1 := fun (t : List Nat × List Nat) s' => Bnd s' t.1 ∧ Bnd s' t.2 ∧ t.1.length = nq1 ∧ t.2.length = nr1 ∧
+      toNat (busVal s' inp t.1) = (toNat (busVal s inp a) / toNat (busVal s inp b)) % 2 ^ nq1 ∧
+      toNat (busVal s' inp t.2) = (toNat (busVal s inp a) % toNat (busVal s inp b)) % 2 ^ nr1)
+    (Q2 := fun _ (t : List Nat × List Nat) s' => t.1.length = nq2 ∧ t.2.length = nr2 ∧
+      toNat (busVal s' inp t.1) = (toNat (busVal s inp c) / toNat (busVal s inp d)) % 2 ^ nq2 ∧
+      toNat (busVal s' inp t.2) = (toNat (busVal s inp c) % toNat (busVal s inp d)) % 2 ^ nr2)
+    (dividerWith_spec nq1 nr1 ha hb hlb hna hB hest1)
+    (by
+      intro t s' s'' e ⟨b1, b2, l1, l2, v1, v2⟩
+      exact ⟨b1.mono e, b2.mono e, l1, l2, by rw [busVal_ext e b1]; exact v1, by rw [busVal_ext e b2]; exact v2⟩)
+    (by
+      intro t s' e _
+      have hvc : busVal s' inp c = busVal s inp c := busVal_ext e hc
+      have hvd : busVal s' inp d = busVal s inp d := busVal_ext e hd
+      refine (dividerWith_spec nq2 nr2 (hc.mono e) (hd.mono e) hld hnc (by rw [hvd]; exact hD) (hest2 s' e)).mono ?_
+      intro u s'' _ ⟨_, _, l1, l2, v1, v2⟩
+      rw [hvc, hvd] at v1 v2
+      exact ⟨l1, l2, v1, v2⟩)
+  refine h.mono ?_
+  intro r s'' _ ⟨⟨_, _, l1, l2, v1, v2⟩, q2⟩
+  exact ⟨⟨l1, l2, v1, v2⟩, q2⟩
+
+-- non-vacuity of C07_history_divider_pair: with the exact estimator all its hypotheses hold from every state
+example {s : St} {inp : List Bool} (hwf : WF s inp) {a b c d : List Nat} (ha : Bnd s a) (hb : Bnd s b) (hc : Bnd s c)
+    (hd : Bnd s d) (hlb : b.length = a.length) (hld : d.length = c.length) (hna : 0 < a.length) (hnc : 0 < c.length)
+    (hB : 0 < toNat (busVal s inp b)) (hD : 0 < toNat (busVal s inp d)) :
+    Spec inp s (dividerWith exactEstimator a b 3 3 >>= fun r1 => dividerWith exactEstimator c d 3 3 >>= fun r2 =>
+        (Pure.pure (r1, r2) : BM ((List Nat × List Nat) × (List Nat × List Nat)))) (fun _ _ => True) :=
+  (C07_history_divider_pair exactEstimator 3 3 3 3 ha hb hc hd hlb hld hna hnc hB hD
+    (exactEstimator_withinOne hwf ha hb hna hB)
+    (fun s' e => exactEstimator_withinOne e.wf (hc.mono e) (hd.mono e) hnc
+      (by rw [busVal_ext e hd]; exact hD))).mono (fun _ _ _ _ => trivial)
+
+/-- The code's divider: two `NewUDividerGoldschmidtFast` calls on one Compiler
+(equal operand widths), under the validated estimate hypothesis for
+`goldEstimate` at both states. -/
+theorem C07_history_goldschmidt_pair {s : St} {inp : List Bool}
+    {a b c d : List Nat} (nq1 nr1 nq2 nr2 : Nat)
+    (ha : Bnd s a) (hb : Bnd s b) (hc : Bnd s c) (hd : Bnd s d)
+    (hlb : b.length = a.length) (hld : d.length = c.length) (hna : 0 < a.length) (hnc : 0 < c.length)
+    (hB : 0 < toNat (busVal s inp b)) (hD : 0 < toNat (busVal s inp d))
+    (hest1 : EstWithinOne goldEstimate inp s a b)
+    (hest2 : ∀ s', Ext s s' inp → EstWithinOne goldEstimate inp s' c d) :
+    Spec inp s (goldschmidt a b nq1 nr1 >>= fun r1 => goldschmidt c d nq2 nr2 >>= fun r2 =>
+        (Pure.pure (r1, r2) : BM ((List Nat × List Nat) × (List Nat × List Nat))))
+      (fun r s'' =>
+        (r.1.1.length = nq1 ∧ r.1.2.length = nr1 ∧
+          toNat (busVal s'' inp r.1.1) = (toNat (busVal s inp a) / toNat (busVal s inp b)) % 2 ^ nq1 ∧
+          toNat (busVal s'' inp r.1.2) = (toNat (busVal s inp a) % toNat (busVal s inp b)) % 2 ^ nr1) ∧
+        (r.2.1.length = nq2 ∧ r.2.2.length = nr2 ∧
+          toNat (busVal s'' inp r.2.1) = (toNat (busVal s inp c) / toNat (busVal s inp d)) % 2 ^ nq2 ∧
+          toNat (busVal s'' inp r.2.2) = (toNat (busVal s inp c) % toNat (busVal s inp d)) % 2 ^ nr2)) := by
+  rw [goldschmidt_eq_dividerWith a b nq1 nr1 hlb.symm, goldschmidt_eq_dividerWith c d nq2 nr2 hld.symm]
+  exact C07_history_divider_pair goldEstimate nq1 nr1 nq2 nr2 ha hb hc hd hlb hld hna hnc hB hD hest1 hest2
+
+-- the conclusion of C07_history_goldschmidt_pair executed on the code's generators: 1 / 1 = 1 and then 0 / 1 = 0 with
+-- two Goldschmidt dividers on one state (1-bit operands keep the kernel evaluation short; the same at 4 bits, where
+-- the seed ROM is in use, 13 / 3 = 4 and then 14 / 5 = 2, is evaluated by the compiled driver on every run: fact
+-- `goldschmidt_pair_on_one_state` of checks/C07.py)
+example : (evalHistory true [ofNat 1 1, ofNat 1 1, ofNat 1 0, ofNat 1 1]
+    [goldCall 1 (0, 0, 1) (1, 0, 1), goldCall 1 (2, 0, 1) (3, 0, 1)]).map toNat = [1, 0] := by decide +kernel
+
 /-! ## What is NOT proved in this file
 
 * The quotient ESTIMATE of `NewUDividerGoldschmidtFast` (`goldEstimate`: MSB
   normalisation, seed ROM, Goldschmidt iterations): Lean generator tied gate for
-  gate (T4), bound `|estimate - ⌊a/b⌋| ≤ 1` only VALIDATED (hypothesis
-  `goldschmidt-estimate-within-one`, see the file header); therefore no
-  unconditional theorem for `NewUDivider` / `NewIDivider` on the GMW target.
+  gate (T4, also as a later call of a history), bound `|estimate - ⌊a/b⌋| ≤ 1`
+  and well-formed state extension only VALIDATED (hypothesis
+  `goldschmidt-estimate-within-one` = `EstWithinOne goldEstimate`, evaluated from
+  fresh states and from the states an earlier divider leaves behind); therefore
+  no unconditional theorem for `NewUDivider` / `NewIDivider` on the GMW target,
+  alone or in a history.
+* That the REAL `circuits.Compiler` has no state beyond what `St` models (gate
+  list, `invI0Wire`/`zeroWire`/`oneWire` caches): not provable in Lean; this is
+  what the history tie (T4 on sequences of calls on one Compiler) and the
+  history oracle check on every run.
 * Signed comparators and signed divider on unequal operand widths: the full
   statement is FALSE on the code (zero extension; witnesses above, open known
   findings C07-int-comparator-zero-extends, C07-signed-div-zero-extends,
